@@ -224,6 +224,10 @@ def validate_streams(traces):
 
 def main():
     ck = core.Check("C09", "model_checking")
+    if ck.args.replay:
+        from vlib import sysrun as _sr
+
+        _sr.replay(ck, "C09", ck.args.replay)
     core.import_repo()
     import concurrent.futures as cf
     import multiprocessing as mp
